@@ -258,8 +258,201 @@ pub fn check_flush_level(levels: &[Vec<FileDump>], rng: &mut Prng, drv: &mut Drv
     }
 }
 
+/// Manual compaction on a synthetic version: the deepest level with overlap, then for one level a
+/// whole request — round after round, the selected files taken out of the version in between (the
+/// outputs of a compaction never go back to the level) — against the model of Rain/Manual.lean; the
+/// number of rounds is bounded by the number of files of the level (C09_manual_rounds_bounded).
+pub fn check_manual(levels: &[Vec<FileDump>], rng: &mut Prng, drv: &mut Drv, rep: &mut Report, origin: &str) {
+    static BASE: std::sync::OnceLock<DbOptions> = std::sync::OnceLock::new();
+    if levels.len() < 7 || !well_formed(levels) {
+        return;
+    }
+    let max_file_size: u64 = *rng.pick(&[1u64, 50, 300, 800, 2_000_000]);
+    let opts = DbOptions { max_file_size, ..BASE.get_or_init(DbOptions::with_memory_env).clone() };
+    let all: Vec<&FileDump> = levels.iter().flatten().collect();
+    let mut bound = |rng: &mut Prng| -> Option<Vec<u8>> {
+        if rng.chance(1, 4) {
+            return None;
+        }
+        Some(if !all.is_empty() && rng.chance(2, 3) {
+            let f = all[rng.below(all.len() as u64) as usize];
+            let mut k = if rng.chance(1, 2) { f.smallest.0.clone() } else { f.largest.0.clone() };
+            match rng.below(4) {
+                0 => k.push(0),
+                1 => {
+                    k.pop();
+                }
+                _ => {}
+            }
+            k
+        } else {
+            format!("k{:03}", rng.below(60)).into_bytes()
+        })
+    };
+    let (mut lo, mut hi) = (bound(rng), bound(rng));
+    if let (Some(a), Some(b)) = (&lo, &hi) {
+        if a > b {
+            std::mem::swap(&mut lo, &mut hi);
+        }
+    }
+    let tok = |k: &Option<Vec<u8>>| k.as_ref().map_or("*".to_string(), |k| crate::drv::hex(k));
+    let ltok = crate::dbsim::levels_tok(levels, &BTreeMap::new());
+    let case = format!("pick {origin} manual max={max_file_size} range={}..{} levels={ltok}", tok(&lo), tok(&hi));
+    // the deepest level with overlap
+    let real_max = match raindb::verif::max_level_with_overlap(&opts, levels, lo.as_deref(), hi.as_deref()) {
+        Ok(l) => l,
+        Err(e) => {
+            rep.case(&case, true);
+            rep.fail("oracle", "c09:manual-compaction-panics", &format!("has_overlap_in_level on a well-formed version: {e}"), &case);
+            return;
+        }
+    };
+    let model = drv.ask(&format!("manual.levels {} {} {ltok}", tok(&lo), tok(&hi)));
+    if model == "no-model" {
+        return;
+    }
+    rep.case(&case, true);
+    rep.model_requests += 1;
+    if model != real_max.to_string() {
+        rep.drift.push(format!("deepest level with overlap differs: implementation {real_max} model {model} :: {case}"));
+        rep.count("model_drift");
+        return;
+    }
+    rep.count(&format!("pick.manual-max-level-{real_max}"));
+    // one request, to its end
+    let candidates: Vec<usize> = (0..6).filter(|l| !levels[*l].is_empty()).collect();
+    if candidates.is_empty() {
+        return;
+    }
+    let level = *rng.pick(&candidates);
+    let mut cur: Vec<Vec<FileDump>> = levels.to_vec();
+    let mut begin: Option<raindb::verif::IKey> = lo.clone().map(|k| (k, u64::MAX, 1));
+    let end: Option<raindb::verif::IKey> = hi.clone().map(|k| (k, 0, 0));
+    let start_files = cur[level].len();
+    let mut rounds = 0usize;
+    loop {
+        let real = match raindb::verif::manual_round(&opts, &cur, level, begin.as_ref(), end.as_ref()) {
+            Ok(r) => r,
+            Err(e) => {
+                rep.fail("oracle", "c09:manual-compaction-panics", &format!("VersionSet::compact_range(level {level}) panics on a well-formed version: {e}"), &case);
+                return;
+            }
+        };
+        let real_tok = match &real {
+            Some((a, b, k)) => format!("{} {} {}/{}", nums(a), nums(b), crate::drv::hex(&k.0), k.1),
+            None => "done".to_string(),
+        };
+        let sizes: Vec<String> = cur.iter().flatten().map(|f| format!("{}={}", f.number, f.size)).collect();
+        let model = drv.ask(&format!(
+            "manual.round {max_file_size} {level} {} {} {} {}",
+            begin.as_ref().map_or("*".to_string(), |k| crate::drv::hex(&k.0)),
+            tok(&hi),
+            crate::dbsim::levels_tok(&cur, &BTreeMap::new()),
+            if sizes.is_empty() { "_".to_string() } else { sizes.join(",") }
+        ));
+        rep.model_requests += 1;
+        if model != real_tok {
+            rep.drift.push(format!("manual compaction round {} of level {level} differs: implementation [{real_tok}] model [{model}] on {:?} from {:?} :: {case}", rounds + 1, cur.iter().map(|l| l.iter().map(|f| f.number).collect::<Vec<_>>()).collect::<Vec<_>>(), begin.as_ref().map(|k| crate::drv::hex(&k.0))));
+            rep.count("model_drift");
+            return;
+        }
+        let Some((in0, in1, next)) = real else { break };
+        rounds += 1;
+        if in0.is_empty() || rounds > start_files {
+            rep.fail("oracle", "c09:manual-compaction-makes-no-progress", &format!("round {rounds} of a manual compaction request on a level that had {start_files} files (selected {in0:?})"), &case);
+            return;
+        }
+        // the model's validity predicate on what was selected
+        let v = drv.ask(&format!("pick.valid {} {level} {} {}", crate::dbsim::levels_tok(&cur, &BTreeMap::new()), nums(&in0), nums(&in1)));
+        if v != "true" && v != "no-model" {
+            rep.fail("oracle", "c07:selected-inputs-not-valid", &format!("manual compaction of level {level}: inputs {in0:?} + {in1:?} do not satisfy the model's validInputs ({v})"), &case);
+            return;
+        }
+        cur[level].retain(|f| !in0.contains(&f.number));
+        cur[level + 1].retain(|f| !in1.contains(&f.number));
+        begin = Some(next);
+    }
+    rep.count(&format!("pick.manual-rounds-{}", rounds.min(6)));
+    rep.count(if level == 0 { "pick.manual-level-0" } else { "pick.manual-level-deeper" });
+}
+
+/// `is_base_level_for_key` with its forward-only pointers on a synthetic version: a sequence of
+/// user keys (ascending as a compaction asks them, or in random order) put to the real function on
+/// one manifest, against the model of the pointers (Rain/BaseLevel.lean); for ascending sequences
+/// both must also equal the specification (C07_base_level_pointers_are_exact).
+pub fn check_base_level(levels: &[Vec<FileDump>], rng: &mut Prng, drv: &mut Drv, rep: &mut Report, origin: &str) {
+    static BASE: std::sync::OnceLock<DbOptions> = std::sync::OnceLock::new();
+    if levels.len() < 7 || !well_formed(levels) {
+        return;
+    }
+    let opts = BASE.get_or_init(DbOptions::with_memory_env).clone();
+    let level = rng.below(4) as usize;
+    let all: Vec<&FileDump> = levels.iter().skip(level + 2).flatten().collect();
+    let mut keys: Vec<Vec<u8>> = vec![];
+    for _ in 0..rng.range(1, 14) {
+        let k = if !all.is_empty() && rng.chance(2, 3) {
+            let f = all[rng.below(all.len() as u64) as usize];
+            let mut k = if rng.chance(1, 2) { f.smallest.0.clone() } else { f.largest.0.clone() };
+            match rng.below(4) {
+                0 => k.push(0),
+                1 => {
+                    k.pop();
+                }
+                _ => {}
+            }
+            k
+        } else {
+            format!("k{:03}", rng.below(60)).into_bytes()
+        };
+        keys.push(k.clone());
+        if rng.chance(1, 4) {
+            keys.push(k); // several versions of one user key follow each other in the merged input
+        }
+    }
+    let ascending = rng.chance(3, 4);
+    if ascending {
+        keys.sort();
+    }
+    let ltok = crate::dbsim::levels_tok(levels, &BTreeMap::new());
+    let ktok = keys.iter().map(|k| crate::drv::hex(k)).collect::<Vec<_>>().join(",");
+    let case = format!("pick {origin} base-level level={level} ascending={ascending} keys={ktok} levels={ltok}");
+    let real = match std::panic::catch_unwind(std::panic::AssertUnwindSafe(|| raindb::verif::base_level_seq(&opts, levels, level, &keys))) {
+        Ok(Ok(r)) => r.iter().map(|b| if *b { '1' } else { '0' }).collect::<String>(),
+        Ok(Err(e)) => {
+            rep.fail("oracle", "c09:base-level-test-panics", &e, &case);
+            return;
+        }
+        Err(_) => {
+            rep.case(&case, true);
+            rep.fail("oracle", "c09:base-level-test-panics", "is_base_level_for_key panics on a well-formed version", &case);
+            return;
+        }
+    };
+    let model = drv.ask(&format!("base.seq {level} {ltok} {ktok}"));
+    if model == "no-model" {
+        return;
+    }
+    rep.case(&case, true);
+    rep.model_requests += 1;
+    let (code_model, spec) = model.split_once('/').unwrap_or((model.as_str(), ""));
+    if code_model != real {
+        rep.drift.push(format!("is_base_level_for_key differs: implementation [{real}] model of the pointers [{code_model}] :: {case}"));
+        rep.count("model_drift");
+        return;
+    }
+    if ascending && spec != real {
+        rep.fail("oracle", "c07:base-level-test-differs-from-its-specification", &format!("keys asked in ascending order: is_base_level_for_key answers [{real}], but [{spec}] says whether a deeper level holds a file with the key in its range: a tombstone is dropped although an older version lies below it (or kept for ever)"), &case);
+        return;
+    }
+    rep.count(if ascending { "pick.base-level-ascending" } else { "pick.base-level-any-order" });
+    if !ascending && spec != real {
+        rep.count("pick.base-level-out-of-order-answers-differ-from-spec");
+    }
+    rep.count(&format!("pick.base-level-true-{}", real.chars().filter(|c| *c == '1').count().min(5)));
+}
+
 pub fn rule() -> &'static str {
-    "compaction input selection (finalize_compaction_inputs = SetupOtherInputs, boundary files, level-0 overlap closure, expansion with its 25 x max_file_size limit) of the real code on synthetic versions (0-5 overlapping level-0 files, 1-3 deeper levels of 0-7 sorted files, adjacent files sharing a boundary user key, random sizes and max_file_size 1 .. 2 000 000) against the Lean model, seed chosen as the real callers choose it (level-0 closure of one file, one file, a run of neighbours); the selected inputs must satisfy the model's validInputs; on the same versions Version::pick_level_for_memtable_output for six key ranges at, just before / after and across file boundaries, with max_file_size 1 .. 2 000 000 (grandparent limit), against the model of Rain/FlushLevel.lean. Non-trivial = at least two files in the two levels; distinct by case text."
+    "compaction input selection (finalize_compaction_inputs = SetupOtherInputs, boundary files, level-0 overlap closure, expansion with its 25 x max_file_size limit) of the real code on synthetic versions (0-5 overlapping level-0 files, 1-3 deeper levels of 0-7 sorted files, adjacent files sharing a boundary user key, random sizes and max_file_size 1 .. 2 000 000) against the Lean model, seed chosen as the real callers choose it (level-0 closure of one file, one file, a run of neighbours); the selected inputs must satisfy the model's validInputs; on the same versions Version::pick_level_for_memtable_output for six key ranges at, just before / after and across file boundaries, with max_file_size 1 .. 2 000 000 (grandparent limit), against the model of Rain/FlushLevel.lean; and manual compaction (Rain/Manual.lean): the deepest level holding a file that overlaps a range with open or closed ends, and a whole manual request on one level, round by round (VersionSet::compact_range with its size cut, the selected files removed in between) until it is done, every round compared with the model, the selected inputs checked against validInputs, the number of rounds against the number of files of the level; and is_base_level_for_key with its forward-only per-level pointers (Rain/BaseLevel.lean) on versions with files down to level 5: key sequences in ascending order (as a compaction asks) or in random order put to one manifest, against the model of the pointers, and for ascending sequences against the specification isBaseLevel. Non-trivial = at least two files in the two levels; distinct by case text."
 }
 
 pub fn run(tier: &str, seed: u64, replay: Option<&str>, drv_path: &str) -> Report {
@@ -273,6 +466,9 @@ pub fn run(tier: &str, seed: u64, replay: Option<&str>, drv_path: &str) -> Repor
             let levels = gen_layout(&mut r);
             check_layout(&levels, &mut r, &mut drv, &mut rep, &format!("gen={s}"));
             check_flush_level(&levels, &mut r, &mut drv, &mut rep, &format!("gen={s}"));
+            check_manual(&levels, &mut r, &mut drv, &mut rep, &format!("gen={s}"));
+            let deep = gen_layout_deep(&mut r, 6);
+            check_base_level(&deep, &mut r, &mut drv, &mut rep, &format!("gen={s}"));
         } else {
             rep.fail("oracle", "pick:bad-replay", "cannot parse replay case", line);
         }
@@ -285,6 +481,9 @@ pub fn run(tier: &str, seed: u64, replay: Option<&str>, drv_path: &str) -> Repor
         let levels = gen_layout(&mut r);
         check_layout(&levels, &mut r, &mut drv, &mut rep, &format!("gen={s}"));
         check_flush_level(&levels, &mut r, &mut drv, &mut rep, &format!("gen={s}"));
+        check_manual(&levels, &mut r, &mut drv, &mut rep, &format!("gen={s}"));
+        let deep = gen_layout_deep(&mut r, 6);
+        check_base_level(&deep, &mut r, &mut drv, &mut rep, &format!("gen={s}"));
     }
     rep
 }
